@@ -165,6 +165,170 @@ def fterm_and_expected(case, model_obs):
     return None
 
 
+# ---------------------------------------------------------------------------------------------------------------------
+# whole rate / predict calls on Flocq's binary64: the libm functions (exp, erfc, x**2, inv_cdf) are the finite tables of the
+# calls the extracted OCaml run made on the same case (driver --libm); every +, -, *, /, sqrt, comparison, conversion and
+# the whole control flow are evaluated by vm_compute on the model's own definitions with IEEE semantics as Flocq specifies
+# it.  Agreement (bit for bit) ties extraction, the OCaml compiler and the driver's native-double dictionary to the Coq
+# model on these cases.
+HEADER_R = """From Coq Require Import List ZArith Bool.
+From Flocq Require Import IEEE754.BinarySingleNaN IEEE754.Binary IEEE754.Bits.
+From OSV Require Import Num Order Gauss Core Predict PyVal Prog RatingOps FloatInst.
+Import ListNotations.
+Definition b (z : Z) : binary64 := b64_of_bits z.
+Fixpoint look (l : list (Z * Z)) (k : Z) : binary64 :=
+  match l with [] => b 0x7ff8000000000000%Z | (a, r) :: t => if Z.eqb a k then b r else look t k end.
+Definition tab (l : list (Z * Z)) (x : binary64) : binary64 := look l (bits_of_b64 x).
+Definition samez (a b : list Z) : bool := if list_eq_dec Z.eq_dec a b then true else false.
+Definition rb (p : rating binary64) : list Z := [bits_of_b64 (r_mu p); bits_of_b64 (r_sigma p)].
+Definition out_rate (r : res (list (list (rating binary64)))) : list Z :=
+  match r with Ok l => flat_map (flat_map rb) l | Raise _ => [(-1)%Z] end.
+Definition out_list (r : res (list binary64)) : list Z :=
+  match r with Ok l => map bits_of_b64 l | Raise _ => [(-1)%Z] end.
+Definition out_one (r : res binary64) : list Z :=
+  match r with Ok x => [bits_of_b64 x] | Raise _ => [(-1)%Z] end.
+Definition out_rank (r : res (list (nat * binary64))) : list Z :=
+  match r with Ok l => flat_map (fun p => [Z.of_nat (fst p); bits_of_b64 (snd p)]) l | Raise _ => [(-1)%Z] end.
+Definition gk (N : Num binary64) : gamma_fn binary64 := fun _ k _ _ _ _ => @fdiv _ N (@fone _ N) (@fofZ _ N (Z.of_nat k)).
+Definition gr (N : Num binary64) : gamma_fn binary64 := fun _ _ _ _ _ r => @fdiv _ N (@fone _ N) (@fofZ _ N (Z.of_nat (r + 1))).
+Definition gt (N : Num binary64) : gamma_fn binary64 :=
+  fun _ k _ _ team _ => @fdiv _ N (@fofZ _ N (Z.of_nat (length team))) (@fofZ _ N (Z.of_nat k)).
+Definition gm (N : Num binary64) : gamma_fn binary64 :=
+  fun c _ mu _ _ _ => @fdiv _ N (@fabs _ N mu) (@fadd _ N (@fabs _ N mu) c).
+Definition gp (N : Num binary64) : gamma_fn binary64 :=
+  fun c _ _ _ team _ => @fdiv _ N (fold_left (fun acc r => @fadd _ N acc (r_sigma r)) team (@fzero _ N))
+                                (@fmul _ N c (@fofZ _ N (Z.of_nat (length team)))).
+"""
+
+
+def _fval(v):
+    """a harness value as a Coq term of type [pyval binary64], or None if it has no exact counterpart"""
+    t = v[0]
+    if t == "N":
+        return "PNone"
+    if t == "B":
+        return "(PBool %s)" % ("true" if v[1] else "false")
+    if t == "I":
+        return "(PInt %s)" % _z(v[1])
+    if t == "F":
+        num, den = float(v[1]).as_integer_ratio()
+        return "(PFloat (b %d) %s %s)" % (_bits(v[1]), _z(num), _z(den.bit_length() - 1))
+    if t == "S":
+        return "(PStr %s)" % ("true" if v[1] else "false")
+    if t == "O":
+        return "(POther %s)" % ("true" if v[1] else "false")
+    if t in ("L", "T"):
+        xs = [_fval(x) for x in v[1]]
+        if any(x is None for x in xs):
+            return None
+        return "(%s [%s])" % ("PList" if t == "L" else "PTuple", "; ".join(xs))
+    if t == "R":
+        _, kind, mu, sg, rid, nm = v
+        return "(PRating %s (mkRating (b %d) (b %d) %s NmNone))" % (KIND[kind], _bits(mu), _bits(sg), _z(rid))
+    return None
+
+
+def _gamma_term(tag):
+    if tag == "gd":
+        return "(@gamma_default binary64 N)"
+    if tag.startswith("gc:"):
+        return "(fun _ _ _ _ _ _ => b %d)" % _bits(float.fromhex(tag[3:]))
+    if tag in ("gk", "gr", "gt", "gm", "gp"):
+        return "(%s N)" % tag
+    return None
+
+
+def rterm_and_expected(case, obs):
+    """(Coq term : list Z, expected) for a whole rate / predict call that returned normally in the extracted run [obs]
+    (which carries the libm log), or None"""
+    from .impl import fh
+    op = case["op"]
+    if op not in ("rate", "pwin", "pdraw", "prank") or obs.get("exc") is not None or "libm" not in obs:
+        return None
+    st = case["st"]
+    g = _gamma_term(st["gamma"])
+    args = [_fval(a) for a in case["args"]]
+    if g is None or any(a is None for a in args):
+        return None
+    tabs = {"e": [], "c": [], "p": [], "i": []}
+    for tag, x, r in obs["libm"]:
+        pair = (int(x, 16), int(r, 16))
+        if pair not in tabs[tag]:
+            tabs[tag].append(pair)
+    if sum(len(v) for v in tabs.values()) > 4000:
+        return None
+
+    def tb(l):
+        return "(tab [%s])" % "; ".join("(%d, %d)%%Z" % p for p in l)
+    n = "(B64Num %s %s %s %s)" % (tb(tabs["e"]), tb(tabs["c"]), tb(tabs["p"]), tb(tabs["i"]))
+    stt = "(mkState (b %d) (b %d) (b %d) (b %d) (b %d) %s %s)" % (
+        _bits(st["mu"]), _bits(st["sigma"]), _bits(st["beta"]), _bits(st["kappa"]), _bits(st["tau"]), g,
+        "true" if st["limit"] else "false")
+    k = KIND[case["kind"]]
+    if op == "rate":
+        body = "out_rate (snd (run (@rate_prog binary64 N %s %s) %s))" % (k, " ".join(args), stt)
+        want = [_bits(fh(x)) for t in obs["res"] for p in t for x in p[:2]]
+    elif op == "pwin":
+        body = "out_list (snd (run (@predict_win_prog binary64 N %s %s) %s))" % (k, args[0], stt)
+        want = [_bits(fh(x)) for x in obs["res"]]
+    elif op == "pdraw":
+        body = "out_one (snd (run (@predict_draw_prog binary64 N %s %s) %s))" % (k, args[0], stt)
+        want = [_bits(fh(obs["res"]))]
+    else:
+        body = "out_rank (snd (run (@predict_rank_prog binary64 N %s %s) %s))" % (k, args[0], stt)
+        want = [y for r, p in obs["res"] for y in (int(r), _bits(fh(p)))]
+    return ("(let N := %s in %s)" % (n, body), want)
+
+
+def run_calls(cases, cap, chunk=12, jobs=16):
+    """whole rate / predict calls: extracted OCaml run (with libm log) vs vm_compute on Flocq binary64.
+    Returns dict(evaluated=, disagreements=[cases], error=)"""
+    from . import enc
+    res = {"evaluated": 0, "disagreements": [], "error": None, "files": 0, "libm_calls_tabulated": 0}
+    elig = [c for c in cases if c["op"] in ("rate", "pwin", "pdraw", "prank") and _gamma_term(c["st"]["gamma"]) is not None][:3 * cap]
+    if not elig:
+        return res
+    obs = enc.run_model(elig, libm=True)
+    items = []
+    for c, o in zip(elig, obs):
+        te = rterm_and_expected(c, o)
+        if te is not None:
+            items.append((c, te[0], te[1]))
+            res["libm_calls_tabulated"] += len(o["libm"])
+        if len(items) >= cap:
+            break
+    res["evaluated"] = len(items)
+    if not items:
+        return res
+    work = tempfile.mkdtemp(prefix="kernel-", dir=os.environ.get("OSV_WORK"))
+    try:
+        files = []
+        for fi in range(0, len(items), chunk):
+            part = items[fi:fi + chunk]
+            path = os.path.join(work, "R%d.v" % (fi // chunk))
+            with open(path, "w") as f:
+                f.write(HEADER_R)
+                f.write("Definition got : list (list Z) := [\n  %s].\n" % ";\n  ".join(t for _, t, _ in part))
+                f.write("Definition want : list (list Z) := [\n  %s].\n" % ";\n  ".join(
+                    "[%s]" % "; ".join("(%d)%%Z" % w for w in ws) for _, _, ws in part))
+                f.write("Definition bad := filter (fun p => negb (samez (fst (snd p)) (snd (snd p)))) "
+                        "(combine (seq 0 (length got)) (combine got want)).\n")
+                f.write("Eval vm_compute in (length got, length want, map fst bad).\n")
+            files.append((path, [(c, None, None) for c, _, _ in part]))
+        res["files"] = len(files)
+        procs = []
+        for path, part in files:
+            procs.append((subprocess.Popen(["timeout", "1200", "coqc", "-q", "-Q", os.path.join(COQ, "theories"), "OSV", path],
+                                           stdout=subprocess.PIPE, stderr=subprocess.STDOUT, text=True), part))
+            if len(procs) >= jobs:
+                _drain(procs, res)
+        _drain(procs, res)
+        return res
+    finally:
+        import shutil
+        shutil.rmtree(work, ignore_errors=True)
+
+
 def run(pairs, chunk=400, jobs=16, fcap=None):
     """pairs: list of (case, model_obs). Returns dict(evaluated=, disagreements=[indices], files=, error=)"""
     items = []
